@@ -896,3 +896,16 @@ package chain
 //@   ensures [fc-touched] forall d int :: { cau.FileContractElementDiffs()[d] } 0 <= d && d < len(cau.FileContractElementDiffs()) ==>
 //@        ((cau.FileContractElementDiffs()[d].FileContractElement.ID in gFC) <==> (cau.FileContractElementDiffs()[d].FileContractElement.ID in old(gFC))) && ((cau.FileContractElementDiffs()[d].FileContractElement.ID in gFC) ==> sameFC(gFC[cau.FileContractElementDiffs()[d].FileContractElement.ID], old(gFC)[cau.FileContractElementDiffs()[d].FileContractElement.ID]))
 //@   ensures [fc-untouched] forall id types.FileContractID :: { id in gFC } (forall d int :: { cau.FileContractElementDiffs()[d] } 0 <= d && d < len(cau.FileContractElementDiffs()) ==> cau.FileContractElementDiffs()[d].FileContractElement.ID != id) ==> ((id in gFC) <==> (id in old(gFC))) && gFC[id] == old(gFC)[id]
+//
+// TipState / Tip: a snapshot of the manager's tip state (used by MineBlock, C05).
+//@ func (*Manager).TipState props C05
+//@   nopanic
+//@   assigns nothing
+//@   requires m != nil
+//@   ensures result == m.tipState
+//@   ensures [assumed:network] result.Network != nil
+//@ func (*Manager).Tip props C05
+//@   nopanic
+//@   assigns nothing
+//@   requires m != nil
+//@   ensures result == m.tipState.Index
